@@ -186,7 +186,7 @@ theorem DataInv.wDecode {s s' : State} (h : DataInv s) (i a b : Nat) (v : Bool)
   case isFalse => cases hs
   rename_i hg
   simp only [Bool.and_eq_true, decide_eq_true_eq] at hg
-  obtain ⟨⟨⟨⟨g1, g2⟩, g3⟩, g4⟩, g5⟩ := hg
+  obtain ⟨⟨⟨⟨⟨g1, g2⟩, g3⟩, g4⟩, g5⟩, g6⟩ := hg
   have hpcI := hw.pcInv
   rw [hpc] at hpcI
   simp only at hpcI
